@@ -164,6 +164,18 @@ CLAIMED["C20"] = dict(
     note=TB + "hypot is an oracle supplied per case by the harness; the property itself is not proved (it is refuted)",
     technique="Coq characterisation + refutation theorem; extracted-model correspondence pins the failure signature")
 
+CLAIMED["C17"] = dict(
+    text="Coq theorems: with shared base units (any set) every two-base operator and every operator history computes the same value with and "
+         "without autoconvert (floats without NaN coefficients, rationals, integers; any storage operation); without autoconvert mixed-base "
+         "operands are rejected by every two-base operator and otherwise the judgement does not depend on the flag; std/no-std are NOT "
+         "bit-identical: two refutation witnesses (powi algorithms on 100^-3; FloatCore trunc of -0.3), agreement on unit base factors; tie: one "
+         "transcript of ~16 000 operations (rounding-in-unit through to_base/from_base/powi, operator histories, temperature arithmetic, kind "
+         "conversions; f64, f32) executed by the same harness source under the four {autoconvert} x {std} builds: autoconvert on/off must agree "
+         "bit for bit, std/no-std must agree or fall in a recorded known class where each build equals the model run with its own float library "
+         "(compiler-builtins powi vs num-traits FloatCore powi; IEEE vs FloatCore roundings); mixed-base programs classified by rustc",
+    note=TB + "known findings nostd-powi and nostd-negzero (root cause: uom selects num_traits::float::FloatCore without std)",
+    technique="Coq proof + four-configuration transcript correspondence + program-family correspondence")
+
 NOT_YET = "check under construction in this build phase; will be claimed once bin/check implements it"
 
 
